@@ -61,9 +61,11 @@ func (rw *ResponseWriter) Write(r Response) error {
 	}
 	rw.writerMu.Lock()
 	defer rw.writerMu.Unlock()
+	verifGate("write.locked", rw.connID, rw.requestID)
 	if _, err := rw.writer.Write(r.packet().Bytes()); err != nil {
 		return fmt.Errorf("%s: unable to write response: %w", op, err)
 	}
+	verifGate("write.pre_flush", rw.connID, rw.requestID)
 	if err := rw.writer.Flush(); err != nil {
 		return fmt.Errorf("%s: unable to flush write: %w", op, err)
 	}
